@@ -1633,12 +1633,28 @@ EGLPNUM_TYPENAME_QSLIB_INTERFACE int EGLPNUM_TYPENAME_QSchange_senses (
 	char *sense)
 {
 	int rval = 0;
+	int i;
 
 	rval = check_qsdata_pointer (p);
 	CHECKRVALG (rval, CLEANUP);
 
 	rval = EGLPNUM_TYPENAME_ILLlib_chgsense (p->lp, num, rowlist, sense);
 	CHECKRVALG (rval, CLEANUP);
+
+	/* 'at upper' is a status of ranged rows only: a row that is no longer
+	 * ranged and whose logical was non-basic at its upper bound is non-basic
+	 * at the one bound it has left (the basis loader refuses the old status) */
+	if (p->basis && p->basis->rstat)
+	{
+		for (i = 0; i < num; i++)
+		{
+			if (p->qslp->sense[rowlist[i]] != 'R' &&
+					p->basis->rstat[rowlist[i]] == QS_ROW_BSTAT_UPPER)
+			{
+				p->basis->rstat[rowlist[i]] = QS_ROW_BSTAT_LOWER;
+			}
+		}
+	}
 
 	p->factorok = 0;
 	drop_edge_norms (p);
